@@ -155,7 +155,7 @@ pub fn census_budget_secs() -> u64 {
 }
 
 pub fn run_budget_secs() -> u64 {
-    std::env::var("VERIF_RUN_BUDGET_S").ok().and_then(|s| s.parse().ok()).unwrap_or(30)
+    std::env::var("VERIF_RUN_BUDGET_S").ok().and_then(|s| s.parse().ok()).unwrap_or(60)
 }
 
 /// `check --replay <file>`: exit 1 + VIOLATION line if it reproduces.
